@@ -412,6 +412,51 @@ def clamp_rule(chk, ctx):
             chk.decide("C14.BOUND", cons, None, f"unrecognised re-assignment {ast.unparse(a)[:80]}", rel=REL, node=a)
 
 
+def dry_rule(chk, ctx):
+    """the dry run that ranks the stack positions is a run of *this* schedule: wherever the constructor calls
+    allocate_snapshots, and wherever allocate_snapshots builds its scratch schedule, every parameter of the callee that
+    the caller also has (steps, units, trajectory) receives the caller's own value - an omitted one silently falls back
+    to the callee's default and the weights are those of another stream"""
+    repo = ctx.repo
+    init = repo.method(REL, CLS, "__init__")
+    alloc = repo.func(REL, "allocate_snapshots")
+
+    def signature(fn, skip_self):
+        a = fn.args
+        pos = [x.arg for x in a.args][1 if skip_self else 0:]
+        defaults = dict(zip([x.arg for x in a.args][len(a.args) - len(a.defaults):], a.defaults))
+        for x, d in zip(a.kwonlyargs, a.kw_defaults):
+            if d is not None:
+                defaults[x.arg] = d
+        return pos, [x.arg for x in a.kwonlyargs], defaults
+
+    for caller, cname_, callee, callee_name, skip in ((init, CLS + ".__init__", alloc, "allocate_snapshots", False),
+                                                      (alloc, "allocate_snapshots", init, CLS, True)):
+        own = {x.arg for x in caller.args.args + caller.args.kwonlyargs} - {"self"}
+        pos, kwonly, defaults = signature(callee, skip)
+        calls = [n for n in ast.walk(caller) if isinstance(n, ast.Call) and getattr(n.func, "id", None) == callee_name]
+        for k, call in enumerate(calls):
+            bound = dict(zip(pos, call.args))
+            for kw in call.keywords:
+                if kw.arg:
+                    bound[kw.arg] = kw.value
+            has_star = any(kw.arg is None for kw in call.keywords) or any(isinstance(a, ast.Starred) for a in call.args)
+            for q in pos + kwonly:
+                if q not in own or q not in defaults:
+                    continue       # only parameters both sides have, and that can be left out
+                cons = f"multistage.{cname_}#dry-run[{k}]/{q}"
+                if q not in bound:
+                    chk.decide("C14.WEIGHTS", cons, None if has_star else False,
+                               f"{callee_name}(...) is called without `{q}`: the callee's default `{ast.unparse(defaults[q])}` is used, "
+                               f"whatever {q} this schedule was given - the weights are those of a different stream", rel=REL, node=call)
+                else:
+                    v = bound[q]
+                    same = isinstance(v, ast.Name) and v.id == q
+                    chk.decide("C14.WEIGHTS", cons, True if same else None,
+                               f"{callee_name}(..., {q}={ast.unparse(v)})" + ("" if same else ": not the caller's own parameter"),
+                               rel=REL, node=call, nontrivial=False)
+
+
 def run(chk, ctx):
     chk.describe("C14.NI", "the RAM/disk split influences labels only (non-interference)")
     chk.describe("C14.SLOT", "one storage per stack position, fixed for the whole run")
@@ -435,5 +480,6 @@ def run(chk, ctx):
     clamp_rule(chk, ctx)
     topk_rule(chk, ctx)
     weights_rules(chk, ctx)
+    dry_rule(chk, ctx)
     chk.note("not decided: the closed arithmetic identity len(storage) == min(ram + disk, n - 1), and minimality of the "
              "disk traffic beyond 'RAM goes to the most-accessed positions'")
